@@ -14,18 +14,20 @@ From Coq Require Import List Arith Bool.
 Import ListNotations.
 
 (* ---- names ---------------------------------------------------------------------------- *)
-Inductive role := Pkl | Wt | Lvl (n : nat) | Blk (n : nat).
+Inductive role := Pkl | Wt | Lvl (n : nat) | Blk (n : nat) | Other (n : nat).
    (* Pkl  : <output>/<resume_file>                 (nested_sampler_resume.pkl)
       Wt   : <output>/proposal/model.pt             (standard sampler, weights written in place)
       Lvl n: <output>/levels/level_n/model.pt       (importance sampler, one file per level)
       Blk n: <output>/proposal/training/block_n/model.pt   (standard sampler with per-training block
-             directories: save_training_data / training plots)                                     *)
+             directories: save_training_data / training plots)
+      Other n: a file the harness has no name for (catch-all, so that every observation has a literal) *)
 Inductive fname := Base (r : role) | Old (f : fname) | Temp (f : fname).
    (* Old f = f + ".old",  Temp f = f + ".temp" *)
 
 Definition role_eqb (a b : role) : bool :=
   match a, b with
   | Pkl, Pkl => true | Wt, Wt => true | Lvl n, Lvl m => Nat.eqb n m | Blk n, Blk m => Nat.eqb n m
+  | Other n, Other m => Nat.eqb n m
   | _, _ => false
   end.
 Fixpoint fname_eqb (a b : fname) : bool :=
